@@ -39,11 +39,13 @@ for n in names:
     d = ROOT / n
     meta = json.loads((d / "meta.json").read_text())
     pid = meta["property"]
+    if meta.get("superseded"):
+        print(f"{n}: skipped (superseded by a later repair, see meta.json)"); continue
     ap = sh(["git", "-C", "/repo", "apply", str(d / "patch.diff")])
     if ap.returncode != 0:
-        ap = sh(["git", "-C", "/repo", "apply", "--3way", str(d / "patch.diff")])
-    if ap.returncode != 0:
-        print(f"{n}: patch does not apply any more: {ap.stderr[-200:]}"); meta["reseed"] = {"applies": False}; continue
+        # a failed (also a half-applied 3-way) patch must not leak into the next seed's run
+        sh(["git", "-C", "/repo", "reset", "-q", "--hard", "HEAD"])
+        print(f"{n}: patch does not apply any more: {ap.stderr[-200:]}"); meta["reseed"] = {"applies": False}; missed.append(n); continue
     try:
         t0 = time.time()
         r = sh(["/venv/bin/python", "-m", "mc.run", pid, "--tier", "quick"], cwd="/verif", env={**os.environ, "VERIF_NO_CONFIRM": "1"}, timeout=3600)
